@@ -271,6 +271,16 @@ func (p *printer) simpleCmd(x *ast.SimpleCmd, redirs []*ast.Redir) (err error) {
 	return
 }
 
+// esac reports whether the first pattern is the word esac, which ends
+// the case conditional construct unless a "(" precedes it.
+func esac(patterns []ast.Word) bool {
+	if len(patterns) == 0 || len(patterns[0]) != 1 {
+		return false
+	}
+	w, ok := patterns[0][0].(*ast.Lit)
+	return ok && w.Value == "esac"
+}
+
 // reserved reports whether the first word of args would be taken for a
 // reserved word at the beginning of a command; it is a command name
 // only because a redirection precedes it.
@@ -422,6 +432,9 @@ func (p *printer) caseClause(x *ast.CaseClause) {
 		for _, c := range x.Items {
 			p.newline()
 			p.indent()
+			if esac(c.Patterns) {
+				p.w.WriteByte('(')
+			}
 			for i, w := range c.Patterns {
 				if i > 0 {
 					p.w.WriteByte('|')
@@ -444,6 +457,9 @@ func (p *printer) caseClause(x *ast.CaseClause) {
 	} else {
 		for _, c := range x.Items {
 			p.space()
+			if esac(c.Patterns) {
+				p.w.WriteByte('(')
+			}
 			for i, w := range c.Patterns {
 				if i > 0 {
 					p.w.WriteByte('|')
